@@ -122,7 +122,12 @@ def run_case(ctx, g, rng):
         small_world_case(ctx, g)
     d = rng.choice([":", ":", ":", "/", "::", "_"])
     pa = PA + (["obo:go", "x:"] if d != ":" else ["a.b", "a/b"])
-    ps, us = rng.sample(pa, k=len(pa)), rng.sample(UA, k=len(UA))
+    ua = UA
+    if rng.random() < 0.2:
+        pa = pa + [x for x in gen.hostile(rng, 2, exclude=(d,)) if x not in pa]
+        ua = UA + [x for x in gen.hostile(rng, 3, uri=True) if x not in UA]
+        S.counters["wl:pools-seasoned"] += 1
+    ps, us = rng.sample(pa, k=len(pa)), rng.sample(ua, k=len(ua))
     ps = [p for p in ps if d not in p]
     n = rng.randint(1, 3)
     recs = []
